@@ -48,7 +48,7 @@ ASSUMES = [
     "by another invocation legitimately keeps that invocation's non-cached dependency)",
 ]
 OUTSIDE = ["ResourceConfig (file-backed) descriptors", "more than 3 factories / 2 overlapping invocations",
-           "factories that raise", "ResourceManager.set() called by user code during a run"]
+           "factories that raise in OVERLAPPING resolutions (sequential ones: ob_failed_resolution)", "ResourceManager.set() called by user code during a run"]
 
 if vlib.boot.under_crosshair():
     install_isinstance_compat()
@@ -314,3 +314,110 @@ def ob_graph3(e01: bool, e12: bool, e02: bool, e20: bool, a0: bool, a1: bool, a2
     elif rb == 2:
         r = 2
     return _scenario(3, edges, [a0, a1, a2], [c0, c1, c2], [g0, g1, g2], [[0], [r]], [sa, sb])
+
+
+# --------------------------------------------------------------------------------------------------------------
+# a resolution that FAILS must leave nothing behind for the next (sequential) one
+# --------------------------------------------------------------------------------------------------------------
+
+
+class _Boom(Exception):
+    pass
+
+
+@obligation(quick=120, thorough=300, partitions_quick=[f"shape == {k}" for k in range(3)], partitions_thorough=[f"shape == {k} and c0 == {c}" for k in range(3) for c in (False, True)],
+            what="sequential invocations, the first one FAILS inside its resolution (a factory raises after another resource of the same invocation "
+                 "was already built): the error propagates, and the next invocation still gets a fresh non-cached object / the one cached object, "
+                 "no false cycle, and the manager's per-resolution bookkeeping is empty again",
+            bounds={"factories": "f0 (cached or not, sync or async) + failing f1 (independent / depends on f0 / f0 depends on it)", "invocations": "failing one, then 1..2 good ones"})
+def ob_failed_resolution(shape: int, c0: bool, a0: bool, a1: bool, twice: bool) -> bool:
+    """
+    pre: 0 <= shape <= 2
+    post: _
+    """
+    shape = 0 if shape == 0 else (1 if shape == 1 else 2)
+    c0, a0, a1, twice = (True if c0 else False), (True if a0 else False), (True if a1 else False), (True if twice else False)
+    calls = {"f0": 0, "f1": 0}
+    fail = {"on": True}
+
+    class Obj:
+        pass
+
+    def _mk(name, is_async, body):
+        if is_async:
+            async def fa(*a, **k):
+                await asyncio.sleep(0)
+                return body(*a, **k)
+            fa.__qualname__ = fa.__name__ = name
+            return fa
+
+        def fs(*a, **k):
+            return body(*a, **k)
+        fs.__qualname__ = fs.__name__ = name
+        return fs
+
+    def body0(*a, **k):
+        calls["f0"] += 1
+        return Obj()
+
+    def body1(*a, **k):
+        calls["f1"] += 1
+        if fail["on"]:
+            raise _Boom("factory failed")
+        return Obj()
+
+    m = ResourceManager()
+    if shape == 0:      # independent resources of one invocation: f0 resolved first, then f1 raises
+        r0 = Resource(_mk("f0", a0, body0), cache=c0)
+        r1 = Resource(_mk("f1", a1, body1), cache=False)
+        first = [r0, r1]
+    elif shape == 1:    # f1 depends on f0 (f0 is built inside f1's resolution), then f1's own body raises
+        r0 = Resource(_mk("f0", a0, body0), cache=c0)
+
+        if a1:
+            async def f1(dep):
+                await asyncio.sleep(0)
+                return body1()
+        else:
+            def f1(dep):
+                return body1()
+        f1.__annotations__ = {"dep": Annotated[object, r0]}
+        r1 = Resource(f1, cache=False)
+        first = [r1]
+    else:               # the step injects f0 and f1; f1 raises first, f0 never built in the failing invocation
+        r0 = Resource(_mk("f0", a0, body0), cache=c0)
+        r1 = Resource(_mk("f1", a1, body1), cache=False)
+        first = [r1, r0]
+
+    out = {"err": None, "vals": []}
+
+    async def invocation(rs):
+        with m.resolution_scope():   # what step_function.partial() does around the injection of one step invocation
+            return [await m.get(r) for r in rs]
+
+    async def main():
+        try:
+            await invocation(first)
+        except _Boom as e:
+            out["err"] = e
+        built_in_failed = calls["f0"]
+        fail["on"] = False
+        v1 = (await invocation([r0]))[0]
+        out["vals"].append(v1)
+        if twice:
+            out["vals"].append((await invocation([r0]))[0])
+        out["built_in_failed"] = built_in_failed
+
+    SymLoop().run_until_complete(main())
+    if out["err"] is None:
+        return False
+    if m._resolving or m._resolution_depth != 0 or m._resolution_cache:
+        return False
+    n_good = 2 if twice else 1
+    if c0:
+        # cached: created once per manager (in the failing invocation if it got that far, else in the first good one)
+        return calls["f0"] == 1 and all(v is out["vals"][0] for v in out["vals"])
+    # non-cached: one fresh object per invocation that needed it
+    if calls["f0"] != out["built_in_failed"] + n_good:
+        return False
+    return len({id(v) for v in out["vals"]}) == n_good
